@@ -204,7 +204,7 @@ fn feature_value(f: &Feat) -> Value {
     match f {
         Feat::Distance(u, i) => json!({"distance_unit": snake(u), "initial": i}),
         Feat::Time(u, i) => json!({"time_unit": snake(u), "initial": i}),
-        Feat::Custom(t, i) => json!({"type": t, "unit": t, "format": {"type": "floating_point", "initial": i}}),
+        Feat::Custom(t, i) => json!({"type": t, "unit": t, "format": {"floating_point": {"initial": i}}}),
     }
 }
 fn features_value(l: &[(String, Feat)]) -> Value {
@@ -366,7 +366,8 @@ fn build(c: &Cfg, dir: &Path) -> Result<Arc<CompassApp>, String> {
 fn seg_point(c: &Cfg, e: usize) -> (f64, f64) {
     let (s, d, _, _, _) = c.net.edges[e];
     let (a, b) = (c.net.coords[s], c.net.coords[d]);
-    (a.0 + 0.375 * (b.0 - a.0), a.1 + 0.375 * (b.1 - a.1))
+    // the edge matcher ranks edges by the distance to the midpoint of their geometry
+    (a.0 + 0.5 * (b.0 - a.0), a.1 + 0.5 * (b.1 - a.1))
 }
 fn query_value(c: &Cfg, q: &Qry) -> Value {
     let mut m = Map::new();
@@ -595,7 +596,11 @@ fn simple_net(n: usize, edges: &[(usize, usize)]) -> Net {
 /// random network: searchkit's graph generator (n 3..40, dense vertex, forced parallel edge / self loop / isolated
 /// vertex / unreachable part) on distinct random grid cells
 fn gen_net(r: &mut Rng, consistent: bool) -> (Net, Vec<&'static str>) {
-    let (n, edges, flags) = sk::gen_graph(r);
+    let (n, mut edges, flags) = sk::gen_graph(r);
+    if edges.is_empty() {
+        // the speed table of an edgeless network does not load
+        edges.push((0, 1));
+    }
     let mut cells: Vec<usize> = (0..64).collect();
     r.shuffle(&mut cells);
     let coords: Vec<(f64, f64)> = cells[..n].iter().map(|c| cell(*c)).collect();
@@ -664,13 +669,6 @@ struct Sem {
     /// "ok" or why the ids written by the map-matching plugin are not the nearest elements
     mm: String,
 }
-fn seg_dist(p: (f64, f64), a: (f64, f64), b: (f64, f64)) -> f64 {
-    let (vx, vy) = (b.0 - a.0, b.1 - a.1);
-    let l2 = vx * vx + vy * vy;
-    let t = if l2 == 0.0 { 0.0 } else { (((p.0 - a.0) * vx + (p.1 - a.1) * vy) / l2).clamp(0.0, 1.0) };
-    let (cx, cy) = (a.0 + t * vx, a.1 + t * vy);
-    ((p.0 - cx).powi(2) + (p.1 - cy).powi(2)).sqrt()
-}
 fn semantics(c: &Cfg, q: &Qry, r: &Resp) -> Sem {
     match c.input {
         Inp::None => Sem { o: q.o, d: q.d, mm: "ok".into() },
@@ -689,7 +687,10 @@ fn semantics(c: &Cfg, q: &Qry, r: &Resp) -> Sem {
                     return false;
                 }
                 let p = seg_point(c, want);
-                let dist = |e: usize| seg_dist(p, c.net.coords[c.net.edges[e].0], c.net.coords[c.net.edges[e].1]);
+                let dist = |e: usize| {
+                    let m = seg_point(c, e);
+                    ((p.0 - m.0).powi(2) + (p.1 - m.1).powi(2)).sqrt()
+                };
                 let best = (0..c.net.edges.len()).map(dist).fold(f64::INFINITY, f64::min);
                 dist(g) <= best + 1e-6
             };
@@ -745,12 +746,14 @@ fn bfs(c: &Cfg, forbid: &[usize], from: usize) -> Vec<bool> {
 }
 
 struct Ctx {
+    /// `error` text of the last response (for the reader of a case description)
+    last_err: String,
     st: Stream,
     work: PathBuf,
     stream: String,
 }
 fn desc(cx: &Ctx, id: usize, fam: &str, c: &Cfg, q: &Qry, short: &str) -> Value {
-    json!({"id": id, "family": fam, "stream": cx.stream, "cfg": cfg_json(c), "qry": qry_json(q), "query": query_value(c, q),
+    json!({"id": id, "error_text": cx.last_err.chars().take(300).collect::<String>(), "family": fam, "stream": cx.stream, "cfg": cfg_json(c), "qry": qry_json(q), "query": query_value(c, q),
            "impl_short": short.chars().take(240).collect::<String>()})
 }
 fn common_hist(st: &mut Stream, fam: &str, c: &Cfg, q: &Qry, r: &Resp) {
@@ -891,6 +894,7 @@ fn add_walk(cx: &mut Ctx, fam: &str, c: &Cfg, q: &Qry) {
     let query = query_value(c, q);
     let r = run_query(&app, &query);
     let s = semantics(c, q, &r);
+    cx.last_err = r.err.clone();
     let core = core_compare(&app, c, &s, &r, &query);
     let mut tree: Vec<(Option<usize>, usize)> = r.tree.iter().map(|(p, e, _)| (*p, *e)).collect();
     tree.sort_by_key(|x| x.1);
@@ -928,7 +932,7 @@ fn add_walk(cx: &mut Ctx, fam: &str, c: &Cfg, q: &Qry) {
         coq_string(&r.status),
         if r.has_tree { format!("[{}]", coq_list(&tree, |(p, e)| format!("({}, {})", nat_opt(p), e))) } else { "[]".into() },
         if r.has_route { format!("[{}]", coq_list(&r.path, |e| e.to_string())) } else { "[]".into() },
-        coq_opt(&counts, |(a, b)| format!("({}, {})", a, b)),
+        coq_opt(&counts, |(a, b)| format!("({}, {})", a, if c.tree_fmt.is_some() { format!("(Some {})", b) } else { "None".to_string() })),
         coq_string(&expected)
     );
     common_hist(&mut cx.st, fam, c, q, &r);
@@ -952,6 +956,7 @@ fn add_reach(cx: &mut Ctx, fam: &str, c: &Cfg, q: &Qry) {
     let query = query_value(c, q);
     let r = run_query(&app, &query);
     let s = semantics(c, q, &r);
+    cx.last_err = r.err.clone();
     let forbid = forbidden(c, q);
     let init = match c.state.first() {
         Some((_, Feat::Distance(_, i))) => *i,
@@ -1015,7 +1020,500 @@ fn add_reach(cx: &mut Ctx, fam: &str, c: &Cfg, q: &Qry) {
     cx.st.case(vec![term], vec![format!("I {} {}", id, payload)], d);
 }
 
-// PART4
+
+// ------------------------------------------------------------------------------------------ app_sums
+
+fn cnum(x: f64) -> String {
+    format!("(c {})", coq_f64(x))
+}
+fn coq_feat(f: &Feat) -> String {
+    match f {
+        Feat::Distance(u, i) => format!("StateOps.FDistance Units.{} {}", u, cnum(*i)),
+        Feat::Time(u, i) => format!("StateOps.FTime Units.{} {}", u, cnum(*i)),
+        Feat::Custom(t, i) => format!("StateOps.FCustom {} {}", coq_string(t), cnum(*i)),
+    }
+}
+fn coq_feats(l: &[(String, Feat)]) -> String {
+    coq_list(l, |(n, f)| format!("({}, {})", coq_string(n), coq_feat(f)))
+}
+/// the configuration + query as a TR.case_gen (same shape as harness/src/bin/c03.rs emits); the operation is a
+/// placeholder that E2E.sums_case replaces by OForward <returned path>
+fn coq_case(c: &Cfg, q: &Qry) -> String {
+    let tm = match &c.tm {
+        Tm::Dist(u) => format!("(TR.TDist Units.{})", u),
+        Tm::Speed { su, du, tu } => format!(
+            "(TR.TSpeed {} Units.{} {} {})",
+            coq_list(&c.net.edges, |e| cnum(e.3)),
+            su,
+            // the application merges every configuration with config.default.toml, whose [traversal] section says
+            // distance_unit = "kilometers": a speed_table section without a distance unit inherits that key
+            format!("(Some Units.{})", du.clone().unwrap_or("Kilometers".into())),
+            coq_opt(tu, |u| format!("Units.{}", u))
+        ),
+    };
+    let am = match &c.turn {
+        None => "TR.ANone".to_string(),
+        Some(t) => format!(
+            "(TR.ATurn {} {} Units.{} {})",
+            coq_list(&t.headings, |(a, d)| format!("Traversal.Build_heading {} {}", coq_z(*a as i128), coq_opt(d, |x| coq_z(*x as i128)))),
+            coq_list(&t.table, |(k, d)| format!("(Traversal.{}, {})", k, cnum(*d))),
+            t.unit,
+            coq_string("time")
+        ),
+    };
+    let weights = q.weights.as_ref().unwrap_or(&c.weights);
+    let cost = format!(
+        "(TR.Build_cost_cfg {} {} [] Cost.ASum)",
+        coq_list(weights, |(n, w)| format!("({}, {})", coq_string(n), cnum(*w))),
+        coq_list(&c.vrates, |(n, r)| format!(
+            "({}, {})",
+            coq_string(n),
+            match r {
+                VRate::Raw => "Cost.VRaw".to_string(),
+                VRate::Factor(f) => format!("Cost.VFactor {}", cnum(*f)),
+            }
+        ))
+    );
+    format!(
+        "(fun (A : Type) (c : float -> A) => TR.Build_case_t {} {} {} {} {} {} {} (TR.OForward []) true)",
+        coq_nat(c.net.coords.len()),
+        coq_list(&c.net.edges, |(s, d, l, _, _)| format!("({}, {}, {})", coq_nat(*s), coq_nat(*d), cnum(*l))),
+        coq_feats(&c.state),
+        coq_feats(&q.user),
+        tm,
+        am,
+        cost
+    )
+}
+fn show_kv(kv: &[(String, f64)]) -> String {
+    format!("{{{}}}", kv.iter().map(|(k, v)| format!("{}:{}", k, show_f64(*v))).collect::<Vec<_>>().join(","))
+}
+fn add_sums(cx: &mut Ctx, fam: &str, c: &Cfg, q: &Qry) {
+    let id = cx.st.next_id();
+    let app = match build(c, &cx.work.join(format!("c{}", id))) {
+        Ok(a) => a,
+        Err(e) => return build_failed(cx, fam, c, q, &e),
+    };
+    let query = query_value(c, q);
+    let r = run_query(&app, &query);
+    let s = semantics(c, q, &r);
+    cx.last_err = r.err.clone();
+    common_hist(&mut cx.st, fam, c, q, &r);
+    if let Tm::Speed { su, du, tu } = &c.tm {
+        cx.st.count(&format!("units:{}/{}/{}", su, du.clone().unwrap_or("default".into()), tu.clone().unwrap_or("default".into())));
+    }
+    if let Tm::Dist(u) = &c.tm {
+        cx.st.count(&format!("units:{}", u));
+    }
+    if let Some(t) = &c.turn {
+        cx.st.count(&format!("delay_unit:{}", t.unit));
+    }
+    let judged = r.status == "Ok" && r.has_route && !r.recs.is_empty() && r.recs.len() == r.path.len() && r.malformed.is_empty() && s.mm == "ok";
+    let (terms, payload) = if judged {
+        // the declared initial state of the instance this query builds (the response does not show it)
+        let app2 = app.clone();
+        let q2 = if r.req.is_object() { r.req.clone() } else { query.clone() };
+        let init: Vec<f64> = catch(AssertUnwindSafe(move || app2.search_app.build_search_instance(&q2).ok().and_then(|si| si.state_model.initial_state().ok()).map(|v| v.iter().map(|x| x.0).collect::<Vec<f64>>())))
+            .ok()
+            .flatten()
+            .unwrap_or_default();
+        let totals: Vec<f64> = r.recs.iter().map(|et| et.total_cost().as_f64()).collect();
+        let route = show_list(&r.recs, |et| format!("{}:{}:{}:{}", et.edge_id.0, show_f64(et.access_cost.as_f64()), show_f64(et.traversal_cost.as_f64()), show_list(&et.result_state, |x| show_f64(x.0))));
+        let payload = format!("route={}/{} sum={} cost={}", route, show_list(&totals, |x| show_f64(*x)), show_kv(&r.summary), show_kv(&r.cost));
+        let gen = coq_case(c, q);
+        let path = coq_list(&r.path, |e| coq_nat(*e));
+        let recs = coq_list(&r.recs, |et| {
+            format!("Traversal.Build_etrav {} {} {} {}", coq_nat(et.edge_id.0), coq_f64(et.access_cost.as_f64()), coq_f64(et.traversal_cost.as_f64()), coq_list(&et.result_state, |x| coq_f64(x.0)))
+        });
+        let kv = |l: &[(String, f64)]| coq_list(l, |(k, v)| format!("({}, {})", coq_string(k), coq_f64(*v)));
+        (
+            vec![
+                format!("E2E.line_sums_M {}%Z {} {}", id, gen, path),
+                format!("E2E.line_sums_S {}%Z {} {} {} {} {} {} {}", id, gen, path, coq_list(&init, |x| coq_f64(*x)), recs, coq_list(&totals, |x| coq_f64(*x)), kv(&r.summary), kv(&r.cost)),
+            ],
+            payload,
+        )
+    } else {
+        // no route to judge: a route is expected exactly when the destination is reachable (plain search, no frontier)
+        let reach = s.d.map(|d| bfs(c, &[], s.o).get(d).copied().unwrap_or(false) && d != s.o).unwrap_or(false);
+        let expected = if reach { "a judged route (reachable destination)" } else { "nopath" };
+        let mut payload = r.status.clone();
+        if r.status == "Ok" {
+            payload = format!("Ok route={} records={} mm={} shape={}", r.has_route, r.recs.len(), s.mm, r.malformed.join("+"));
+        }
+        (vec![format!("E2E.line_echo \"M\" {}%Z {}", id, coq_string(expected)), format!("E2E.line_echo \"S\" {}%Z {}", id, coq_string(expected))], payload)
+    };
+    let unit_differs = match (&c.tm, c.state.first(), q.user.first()) {
+        (_, _, Some(_)) => true,
+        (Tm::Speed { du, tu, .. }, _, _) => du.is_some() || tu.is_some(),
+        (Tm::Dist(u), Some((_, Feat::Distance(fu, _))), _) => u != fu,
+        _ => false,
+    };
+    let delay = r.recs.iter().skip(1).any(|et| et.access_cost.as_f64() > 1e-9);
+    if judged {
+        cx.st.count(if delay { "turn_delay_charged" } else { "no_turn_delay_charged" });
+    }
+    if judged && r.path.len() >= 2 && (unit_differs || delay) {
+        cx.st.mark_nontrivial(&format!("{}|{}", cfg_json(c), qry_json(q)));
+    }
+    let d = desc(cx, id, fam, c, q, &payload);
+    cx.st.case(terms, vec![format!("I {} {}", id, payload)], d);
+}
+
+
+// ------------------------------------------------------------------------------------------ deterministic families
+
+/// searchkit's boundary worlds that a configuration file can express (forward, Dijkstra / default A*, no turn /
+/// failure tables, no limit): vertex i on grid cell i, length = 1000 * table cost, forbidden edges = road class 1
+fn converted_boundaries(variety: bool) -> Vec<(String, Cfg, Qry)> {
+    let mut out = vec![];
+    for (i, (name, w, q)) in sk::boundary_cases().into_iter().enumerate() {
+        let alg_ok = matches!(q.alg, sk::Alg::Dijkstra | sk::Alg::AStar(None));
+        if q.dir != sk::Dir::Forward || !alg_ok || !w.turn.is_empty() || !w.fturn.is_empty() || !w.ferr.is_empty() || !w.terr.is_empty() || w.term != sk::Term::Unlimited || w.h.iter().any(|x| *x != 0.0) || w.init != 0.0 || q.query_wf.is_some() || w.n > 64 {
+            continue;
+        }
+        let edges = w.edges.iter().enumerate().map(|(e, (s, d))| (*s, *d, (w.cost[e] * 1000.0).round().max(1.0), SPEEDS[e % SPEEDS.len()], if w.forbid.contains(&e) { 1u8 } else { 0u8 })).collect();
+        let net = Net { coords: (0..w.n).map(cell).collect(), edges };
+        let mut c = dist_cfg(net, "Meters", 0.0);
+        c.astar = q.alg != sk::Alg::Dijkstra;
+        c.edge_oriented = q.orient == sk::Orient::Edge;
+        let mut qq = plain_q(q.source, q.target);
+        if !w.forbid.is_empty() {
+            c.road_class = true;
+            qq.classes = Some(vec![0]);
+        }
+        if variety {
+            c.route_fmt = if i % 3 == 0 { "json".into() } else { "edge_id".into() };
+            c.tree_fmt = match i % 4 {
+                0 => Some("edge_id".into()),
+                3 => None,
+                _ => Some("json".into()),
+            };
+            c.summary = i % 5 != 0;
+            let in_range = q.source < (if c.edge_oriented { w.edges.len() } else { w.n }) && q.target.map(|t| t < (if c.edge_oriented { w.edges.len() } else { w.n })).unwrap_or(true);
+            if i % 7 == 3 && in_range {
+                c.input = if c.edge_oriented { Inp::Edge } else { Inp::Vertex };
+            }
+        }
+        out.push((name, c, qq));
+    }
+    out
+}
+
+fn reach_shapes() -> Vec<(String, Cfg, Qry)> {
+    let mut out = vec![];
+    for astar in [false, true] {
+        let mut mk = |name: &str, n: usize, es: &[(usize, usize)], forbid: &[usize], eo: bool, o: usize, d: Option<usize>, classes: Option<Vec<u8>>| {
+            let coords: Vec<(f64, f64)> = (0..n).map(cell).collect();
+            let net = net_of(coords, es, |i| 1.1 + 0.3 * (i % 3) as f64, |i| SPEEDS[i % 8], |i| if forbid.contains(&i) { 1 } else { 0 });
+            let mut c = dist_cfg(net, "Meters", if o % 2 == 1 { 1000.0 } else { 0.0 });
+            c.astar = astar;
+            c.road_class = true;
+            c.edge_oriented = eo;
+            let mut q = plain_q(o, d);
+            q.classes = classes;
+            out.push((name.to_string(), c, q));
+        };
+        let only0 = Some(vec![0u8]);
+        mk("forbidden_bridge", 4, &[(0, 1), (1, 2), (2, 3)], &[1], false, 0, Some(3), only0.clone());
+        mk("forbidden_bridge_no_target", 4, &[(0, 1), (1, 2), (2, 3)], &[1], false, 0, None, only0.clone());
+        mk("forbidden_parallel", 3, &[(0, 1), (0, 1), (1, 2)], &[0], false, 0, Some(2), only0.clone());
+        mk("forbidden_parallel_no_target", 3, &[(0, 1), (0, 1), (1, 2)], &[0], false, 0, None, only0.clone());
+        mk("forbidden_first_hop", 3, &[(0, 1), (0, 2), (1, 2)], &[0, 1], false, 0, Some(2), only0.clone());
+        mk("forbidden_first_hop_one", 3, &[(0, 1), (0, 2), (1, 2)], &[0], false, 0, Some(1), only0.clone());
+        mk("forbidden_first_hop_no_target", 3, &[(0, 1), (0, 2), (1, 2)], &[0], false, 0, None, only0.clone());
+        mk("forbidden_last_hop", 3, &[(0, 1), (1, 2)], &[1], false, 0, Some(2), only0.clone());
+        mk("everything_forbidden", 3, &[(0, 1), (1, 2)], &[], false, 0, Some(2), Some(vec![]));
+        mk("everything_forbidden_no_target", 3, &[(0, 1), (1, 2)], &[], false, 0, None, Some(vec![]));
+        mk("other_class_only", 3, &[(0, 1), (1, 2)], &[1], false, 0, Some(2), Some(vec![1, 2]));
+        mk("no_class_list_in_query", 3, &[(0, 1), (1, 2)], &[1], false, 0, Some(2), None);
+        mk("several_classes", 3, &[(0, 1), (1, 2)], &[1], false, 0, Some(2), Some(vec![3, 1, 0]));
+        mk("two_components", 4, &[(0, 1), (1, 0), (2, 3), (3, 2)], &[], false, 1, Some(3), only0.clone());
+        mk("two_components_no_target", 4, &[(0, 1), (1, 0), (2, 3), (3, 2)], &[], false, 1, None, only0.clone());
+        mk("one_way_street_against", 3, &[(0, 1), (1, 2)], &[], false, 2, Some(0), only0.clone());
+        let chain = [(0usize, 1usize), (1, 2), (2, 3), (3, 4)];
+        mk("eo_forbidden_between", 5, &chain, &[1], true, 0, Some(3), only0.clone());
+        mk("eo_forbidden_origin_edge", 5, &chain, &[0], true, 0, Some(3), only0.clone());
+        mk("eo_forbidden_destination_edge", 5, &chain, &[3], true, 0, Some(3), only0.clone());
+        mk("eo_adjacent_forbidden_destination", 5, &chain, &[1], true, 0, Some(1), only0.clone());
+        mk("eo_forbidden_no_target", 5, &chain, &[2], true, 0, None, only0.clone());
+        mk("eo_unreachable_backwards", 5, &chain, &[], true, 3, Some(0), only0.clone());
+    }
+    out
+}
+
+fn zigzag() -> (Vec<(f64, f64)>, Vec<(usize, usize)>) {
+    // 0 -> 1 -> 2 -> 3 -> 4 with a right, a left and a right turn, both directions, a slow direct edge 0 -> 4,
+    // a parallel twin of the first edge, a self loop, an isolated vertex 5
+    let coords = vec![cell(0), cell(1), cell(9), cell(10), cell(18), cell(40)];
+    let edges = vec![(0, 1), (1, 2), (2, 3), (3, 4), (1, 0), (2, 1), (3, 2), (4, 3), (0, 4), (0, 1), (2, 2)];
+    (coords, edges)
+}
+fn zig_net() -> Net {
+    let (coords, edges) = zigzag();
+    net_of(coords, &edges, |i| if i == 8 { 3.0 } else if i == 9 { 1.5 } else { 1.05 + 0.07 * i as f64 }, |i| SPEEDS[(i * 3) % 8], |_| 0)
+}
+fn sums_shapes() -> Vec<(String, Cfg, Qry)> {
+    let mut out: Vec<(String, Cfg, Qry)> = vec![];
+    let net = zig_net();
+    let json_route = |mut c: Cfg| {
+        c.route_fmt = "json".into();
+        c
+    };
+    for (i, u) in DIST.iter().enumerate() {
+        let mut c = json_route(dist_cfg(net.clone(), u, 0.0));
+        c.astar = i % 2 == 0;
+        out.push(("distance_unit".into(), c, plain_q(0, Some(4))));
+        // feature unit differs from the model's unit, non-zero declared initial value
+        let mut c = json_route(dist_cfg(net.clone(), "Kilometers", 0.0));
+        c.state = vec![("distance".into(), Feat::Distance(u.to_string(), 12.5))];
+        c.astar = i % 2 == 1;
+        out.push(("distance_feature_unit".into(), c, plain_q(0, Some(4))));
+    }
+    let mut k = 0;
+    for su in SPEED {
+        for du in [None, Some("Miles")] {
+            for tu in [None, Some("Minutes"), Some("Hours")] {
+                let mut c = json_route(base_cfg(net.clone()));
+                c.tm = Tm::Speed { su: su.into(), du: du.map(|x| x.to_string()), tu: tu.map(|x| x.to_string()) };
+                c.astar = k % 2 == 0;
+                c.weights = vec![("distance".into(), (k % 3) as f64), ("time".into(), 1.0)];
+                c.summary = k % 2 == 1;
+                out.push(("speed_units".into(), c, plain_q(0, Some(4))));
+                k += 1;
+            }
+        }
+    }
+    for (i, u) in TIME.iter().enumerate() {
+        let mut c = json_route(base_cfg(net.clone()));
+        c.tm = Tm::Speed { su: "KilometersPerHour".into(), du: None, tu: Some(TIME[(i + 1) % 4].into()) };
+        c.turn = Some(TurnCfg { headings: geo_headings(&net), table: full_turn_table(1.5), unit: u.to_string() });
+        c.astar = i % 2 == 0;
+        out.push(("turn_delay_unit".into(), c.clone(), plain_q(0, Some(4))));
+        if i == 0 {
+            out.push(("turn_delay_back".into(), c, plain_q(4, Some(0))));
+        }
+    }
+    // the query's own state features (units and initial values), weights, weight factor
+    let mut c = json_route(base_cfg(net.clone()));
+    c.turn = Some(TurnCfg { headings: geo_headings(&net), table: full_turn_table(4.0), unit: "Seconds".into() });
+    let mut q = plain_q(0, Some(4));
+    q.user = vec![("distance".into(), Feat::Distance("Miles".into(), 5.0)), ("time".into(), Feat::Time("Hours".into(), 0.25))];
+    out.push(("query_state_features".into(), c.clone(), q));
+    let mut q = plain_q(0, Some(3));
+    q.user = vec![("time".into(), Feat::Time("Milliseconds".into(), 0.0))];
+    q.weights = Some(vec![("distance".into(), 1.0)]);
+    out.push(("query_weights".into(), c.clone(), q));
+    let mut q = plain_q(1, Some(4));
+    q.wf = Some(0.5);
+    out.push(("query_weight_factor".into(), c.clone(), q));
+    let mut c2 = c.clone();
+    c2.vrates = vec![("distance".into(), VRate::Factor(0.25)), ("time".into(), VRate::Factor(3.0))];
+    c2.weights = vec![("distance".into(), 1.0), ("time".into(), 1.0)];
+    out.push(("vehicle_rate_factor".into(), c2, plain_q(0, Some(4))));
+    // extra configured feature nobody writes to
+    let mut c3 = c.clone();
+    c3.state = vec![("soc".into(), Feat::Custom("soc".into(), 0.5))];
+    out.push(("extra_feature".into(), c3, plain_q(0, Some(4))));
+    // one edge; the cheaper of two parallel edges; coordinates instead of ids; no route
+    out.push(("single_edge".into(), c.clone(), plain_q(1, Some(2))));
+    out.push(("parallel_edges".into(), c.clone(), plain_q(0, Some(1))));
+    let mut c4 = c.clone();
+    c4.input = Inp::Vertex;
+    out.push(("map_matched".into(), c4, plain_q(4, Some(1))));
+    out.push(("unreachable".into(), c.clone(), plain_q(0, Some(5))));
+    let mut c5 = json_route(dist_cfg(net.clone(), "Feet", 100.0));
+    c5.input = Inp::Vertex;
+    c5.astar = false;
+    out.push(("map_matched".into(), c5, plain_q(3, Some(0))));
+    out
+}
+
+// ------------------------------------------------------------------------------------------ random cases
+
+fn gen_turn(r: &mut Rng, net: &Net) -> TurnCfg {
+    let headings = if r.chance(1, 2) {
+        geo_headings(net)
+    } else {
+        net.edges.iter().map(|_| (r.below(360) as i64, if r.chance(1, 3) { Some(r.below(360) as i64) } else { None })).collect()
+    };
+    let table = TURNS.iter().enumerate().map(|(i, t)| (t.to_string(), if i == 0 && r.chance(3, 4) { 0.0 } else { *r.pick(&[0.0, 0.5, 1.0, 2.5, 5.0, 10.0, 30.0]) })).collect();
+    TurnCfg { headings, table, unit: r.pick(&TIME).to_string() }
+}
+/// hop distance from `from` over permitted edges (None = unreachable)
+fn depths(c: &Cfg, forbid: &[usize], from: usize) -> Vec<Option<usize>> {
+    let n = c.net.coords.len();
+    let mut dep: Vec<Option<usize>> = vec![None; n];
+    if from >= n {
+        return dep;
+    }
+    dep[from] = Some(0);
+    let mut queue = std::collections::VecDeque::from([from]);
+    while let Some(v) = queue.pop_front() {
+        for (i, (s, d, _, _, _)) in c.net.edges.iter().enumerate() {
+            if *s == v && *d < n && dep[*d].is_none() && !forbid.contains(&i) {
+                dep[*d] = Some(dep[v].unwrap() + 1);
+                queue.push_back(*d);
+            }
+        }
+    }
+    dep
+}
+/// a destination for origin `o`: with probability reach_pct % one that can be reached (half of the time one of the
+/// farthest in hops), otherwise any other id
+fn pick_target(r: &mut Rng, c: &Cfg, forbid: &[usize], o: usize, reach_pct: u64) -> usize {
+    let dom = if c.edge_oriented { c.net.edges.len() } else { c.net.coords.len() };
+    let start = if c.edge_oriented { c.net.edges[o].1 } else { o };
+    let dep = depths(c, forbid, start);
+    let mut cands: Vec<(usize, usize)> = if c.edge_oriented {
+        (0..dom).filter(|e| *e != o).filter_map(|e| dep[c.net.edges[e].0].map(|k| (e, k))).collect()
+    } else {
+        (0..dom).filter(|v| *v != o).filter_map(|v| dep[v].map(|k| (v, k))).collect()
+    };
+    if !cands.is_empty() && r.below(100) < reach_pct {
+        if r.chance(1, 2) {
+            let far = cands.iter().map(|x| x.1).max().unwrap();
+            cands.retain(|x| x.1 + 1 >= far);
+        }
+        r.pick(&cands).0
+    } else {
+        let t = r.below(dom as u64) as usize;
+        if t == o { (t + 1) % dom } else { t }
+    }
+}
+/// an origin from which something can be reached, when there is one (a few tries)
+fn pick_origin(r: &mut Rng, c: &Cfg, forbid: &[usize]) -> usize {
+    let dom = if c.edge_oriented { c.net.edges.len() } else { c.net.coords.len() };
+    let mut best = (r.below(dom as u64) as usize, 0usize);
+    for _ in 0..8 {
+        let o = r.below(dom as u64) as usize;
+        let start = if c.edge_oriented { c.net.edges[o].1 } else { o };
+        let k = depths(c, forbid, start).iter().filter(|x| x.is_some()).count();
+        if k > best.1 {
+            best = (o, k);
+        }
+    }
+    best.0
+}
+fn gen_case(r: &mut Rng, stream: &str) -> (String, Cfg, Qry, Vec<&'static str>) {
+    let sums = stream == "app_sums";
+    let consistent = sums || r.chance(1, 2);
+    let (net, flags) = gen_net(r, consistent);
+    let mut c = base_cfg(net);
+    c.astar = r.chance(1, 2);
+    if c.astar && r.chance(1, 4) {
+        c.cfg_wf = Some(if sums { *r.pick(&[0.0, 0.5, 1.0]) } else { *r.pick(&[0.0, 0.5, 1.0, 3.0]) });
+    }
+    if r.chance(2, 5) {
+        let u = *r.pick(&DIST);
+        c = Cfg { astar: c.astar, cfg_wf: c.cfg_wf, ..dist_cfg(c.net.clone(), u, *r.pick(&[0.0, 0.0, 12.5, 1000.0])) };
+        if r.chance(1, 4) {
+            let init = if let Feat::Distance(_, i) = c.state[0].1 { i } else { 0.0 };
+            c.state = vec![("distance".into(), Feat::Distance(r.pick(&DIST).to_string(), init))];
+        }
+        if r.chance(1, 5) {
+            c.vrates = vec![("distance".into(), VRate::Factor(*r.pick(&[0.5, 2.0, 0.125])))];
+        }
+    } else {
+        c.tm = Tm::Speed {
+            su: r.pick(&SPEED).to_string(),
+            du: if r.chance(1, 2) { Some(r.pick(&DIST).to_string()) } else { None },
+            tu: if r.chance(1, 2) { Some(r.pick(&TIME).to_string()) } else { None },
+        };
+        c.weights = match r.below(6) {
+            0 => vec![("time".into(), 1.0)],
+            1 => vec![("distance".into(), 1.0)],
+            2 => vec![("distance".into(), 1.0), ("time".into(), 1.0)],
+            3 => vec![("distance".into(), 0.5), ("time".into(), 2.0)],
+            4 => vec![("distance".into(), 2.0), ("time".into(), 0.25)],
+            _ => vec![("distance".into(), 0.0), ("time".into(), 1.0)],
+        };
+        if r.chance(1, 5) {
+            c.vrates = vec![("distance".into(), VRate::Factor(*r.pick(&[0.5, 2.0]))), ("time".into(), VRate::Factor(*r.pick(&[0.25, 3.0])))];
+        }
+        if r.chance(1, 5) {
+            c.state = vec![("soc".into(), Feat::Custom("soc".into(), 0.5))];
+        }
+        if r.chance(1, 2) {
+            c.turn = Some(gen_turn(r, &c.net));
+        }
+    }
+    c.summary = r.chance(3, 4);
+    let mut q = plain_q(0, None);
+    if sums {
+        c.route_fmt = "json".into();
+        c.tree_fmt = if r.chance(1, 3) { Some("json".into()) } else { None };
+        c.input = if r.chance(1, 4) { Inp::Vertex } else { Inp::None };
+    } else {
+        c.route_fmt = if r.chance(3, 10) { "json".into() } else { "edge_id".into() };
+        c.tree_fmt = match r.below(4) {
+            0 => None,
+            1 => Some("edge_id".into()),
+            _ => Some("json".into()),
+        };
+        c.edge_oriented = r.chance(2, 5) && !c.net.edges.is_empty();
+        c.road_class = r.chance(if stream == "app_reach" { 3 } else { 1 }, 5);
+        if r.chance(1, 4) {
+            c.input = if c.edge_oriented { Inp::Edge } else { Inp::Vertex };
+        }
+        if c.road_class && r.chance(4, 5) {
+            let k = r.below(5);
+            let mut cl: Vec<u8> = (0..4u8).filter(|_| r.below(4) < k).collect();
+            if r.chance(1, 6) {
+                cl.push(cl.first().copied().unwrap_or(2));
+            }
+            q.classes = Some(cl);
+        }
+    }
+    let dom = if c.edge_oriented { c.net.edges.len() } else { c.net.coords.len() };
+    let forbid = forbidden(&c, &q);
+    q.o = if sums || r.chance(3, 4) { pick_origin(r, &c, &forbid) } else { r.below(dom as u64) as usize };
+    let with_dest = sums || !r.chance(if stream == "app_reach" { 1 } else { 1 }, if stream == "app_reach" { 3 } else { 6 });
+    if with_dest {
+        q.d = Some(pick_target(r, &c, &forbid, q.o, if sums { 96 } else { 75 }));
+    } else if stream == "app_reach" {
+        // the labels of a destination-less tree are least distances: distance model in meters, distance the only cost
+        let init = *r.pick(&[0.0, 1000.0]);
+        let keep = c.clone();
+        c = Cfg { astar: keep.astar, cfg_wf: keep.cfg_wf, road_class: keep.road_class, edge_oriented: keep.edge_oriented, input: keep.input, route_fmt: keep.route_fmt, summary: keep.summary, ..dist_cfg(keep.net, "Meters", init) };
+        c.tree_fmt = Some("json".into());
+    }
+    // query-level overrides
+    if r.chance(1, 5) {
+        match &c.tm {
+            // a query can only override features the traversal / access MODELS declare; the distance model declares
+            // none (its feature comes from [state]), such a query is answered with an error (kept rare: 1 in 4)
+            Tm::Dist(_) => {
+                if r.chance(1, 4) && stream == "app_walk" {
+                    q.user = vec![("distance".into(), Feat::Distance(r.pick(&DIST).to_string(), *r.pick(&[0.0, 3.0])))]
+                }
+            }
+            Tm::Speed { .. } => {
+                if r.chance(2, 3) {
+                    q.user.push(("distance".into(), Feat::Distance(r.pick(&DIST).to_string(), *r.pick(&[0.0, 7.5]))));
+                }
+                if q.user.is_empty() || r.chance(1, 2) {
+                    q.user.push(("time".into(), Feat::Time(r.pick(&TIME).to_string(), *r.pick(&[0.0, 0.25]))));
+                }
+            }
+        }
+        if !with_dest && stream == "app_reach" {
+            q.user.clear();
+        }
+    }
+    if r.chance(1, 6) && matches!(c.tm, Tm::Speed { .. }) {
+        q.weights = Some(match r.below(3) {
+            0 => vec![("distance".into(), 1.0)],
+            1 => vec![("time".into(), 1.0), ("distance".into(), 0.5)],
+            _ => vec![("time".into(), 2.0)],
+        });
+    }
+    if r.chance(1, 10) {
+        q.wf = Some(if sums { *r.pick(&[0.0, 0.5, 1.0]) } else { *r.pick(&[0.0, 0.5, 1.0, 3.0]) });
+    }
+    (if consistent { "random_consistent".to_string() } else { "random_any_length".to_string() }, c, q, flags)
+}
+
 
 // PART5
 fn probe(out: &Path) {
@@ -1061,6 +1559,14 @@ fn probe(out: &Path) {
     }
 }
 
+fn add(cx: &mut Ctx, fam: &str, c: &Cfg, q: &Qry) {
+    match cx.stream.as_str() {
+        "app_walk" => add_walk(cx, fam, c, q),
+        "app_sums" => add_sums(cx, fam, c, q),
+        _ => add_reach(cx, fam, c, q),
+    }
+}
+
 fn main() {
     silence_panics();
     let a = parse_args();
@@ -1068,5 +1574,52 @@ fn main() {
         probe(&a.out);
         std::process::exit(0);
     }
+    if !matches!(a.stream.as_str(), "app_walk" | "app_sums" | "app_reach") {
+        eprintln!("unknown stream {}", a.stream);
+        std::process::exit(2);
+    }
+    let mut cx = Ctx { last_err: String::new(), st: Stream::new(&a.out, &a.stream, HEADER, a.shards), work: a.out.join("apps"), stream: a.stream.clone() };
+    if let Some(p) = &a.replay {
+        cx.st.full = true;
+        let v: Value = serde_json::from_str(&std::fs::read_to_string(p).unwrap()).unwrap();
+        let cases: Vec<Value> = match v.get("cases") {
+            Some(cs) => cs.as_array().unwrap().clone(),
+            None => vec![v["case"].clone()],
+        };
+        for case in &cases {
+            let c = cfg_from(&case["cfg"]);
+            let q = qry_from(&case["qry"]);
+            let fam = case.get("corpus").and_then(|x| x.as_str()).map(|x| format!("corpus:{}", x)).unwrap_or("replay".to_string());
+            add(&mut cx, &fam, &c, &q);
+        }
+        cx.st.finish();
+        let _ = std::fs::remove_dir_all(&cx.work);
+        std::process::exit(0);
+    }
+    // ---- deterministic boundary families first
+    let fams: Vec<(String, Cfg, Qry)> = match a.stream.as_str() {
+        "app_walk" => converted_boundaries(true),
+        "app_sums" => sums_shapes(),
+        _ => reach_shapes().into_iter().chain(converted_boundaries(false)).collect(),
+    };
+    for (name, c, q) in &fams {
+        if cx.st.next_id() >= a.n {
+            break;
+        }
+        add(&mut cx, name, c, q);
+    }
+    // ---- random networks, a few queries each
+    let mut rng = Rng::new(a.seed);
+    while cx.st.next_id() < a.n {
+        let mut r = rng.fork();
+        let (fam, c, q, flags) = gen_case(&mut r, &a.stream);
+        for f in &flags {
+            cx.st.count(&format!("forced:{}", f));
+        }
+        add(&mut cx, &fam, &c, &q);
+    }
+    cx.st.finish();
+    let _ = std::fs::remove_dir_all(&cx.work);
+    // abandoned watchdog threads (if any) die here
     std::process::exit(0);
 }
